@@ -104,6 +104,8 @@ def run_property(prop, fn, level, tier, seed, checker_cmd, explanation, assumpti
         if prop != "C11":
             from . import rules_c11, vg
             rules_c11.transfer(ctx, rep, set(vg.COVERED), prop)
+            from . import rules_total
+            rules_total.assumed_assertions(ctx, rep, set(vg.COVERED), prop)
     except extract.BuildError as e:
         first = ""
         for line in e.log.splitlines():
